@@ -52,16 +52,72 @@ func (fr *Frame) lockOp(st *State, op string, mu string, pos token.Pos) {
 		fr.lockObl(st, "lock:acquire-free", pos, eq(cur, "0"))
 		x.set(st, "lock", sx("store", x.get(st, "lock"), mu, "1"))
 		fr.relock(st, mu)
+		fr.lockInvs(st, mu, pos, false)
 	case "RLock":
 		fr.lockObl(st, "lock:acquire-free", pos, eq(cur, "0"))
 		x.set(st, "lock", sx("store", x.get(st, "lock"), mu, "2"))
 		fr.relock(st, mu)
 	case "Unlock":
 		fr.lockObl(st, "lock:release-held", pos, eq(cur, "1"))
+		fr.lockInvs(st, mu, pos, true)
 		x.set(st, "lock", sx("store", x.get(st, "lock"), mu, "0"))
 	case "RUnlock":
 		fr.lockObl(st, "lock:release-held", pos, eq(cur, "2"))
 		x.set(st, "lock", sx("store", x.get(st, "lock"), mu, "0"))
+	}
+}
+
+// lockinv clauses of the function under verification: assumed on acquiring the named mutex, obligations on releasing it
+func (fr *Frame) lockInvs(st *State, mu string, pos token.Pos, release bool) {
+	x := fr.x
+	top := x.topFrame
+	if top == nil || top.ct == nil || len(top.ct.LockInvs) == 0 {
+		return
+	}
+	for i, li := range top.ct.LockInvs {
+		sc := top.scope(st, top.entry)
+		sc.localFrame = fr
+		if fr == top {
+			sc.at = fr.curSite
+		}
+		nm := li.Clause.Name
+		if nm == "" {
+			nm = fmt.Sprint(i + 1)
+		}
+		oname := fmt.Sprintf("%s#lock:inv-at-release:%s", x.target, nm)
+		var g string
+		ok := func() (ok bool) {
+			defer func() {
+				if r := recover(); r != nil {
+					if _, isEval := r.(evalError); !isEval {
+						panic(r)
+					}
+					ok = false
+				}
+			}()
+			loc, _ := sc.lvalue(li.Mu)
+			gv := sc.eval(li.Clause.E)
+			g = implies(eq(loc, mu), gv.T)
+			return true
+		}()
+		if li.AssumeOnly {
+			if !release && ok {
+				x.c.AssumedUse["lockowns "+top.ct.Key+": "+li.Clause.Text]++
+				x.c.assume(implies(st.Reach, g))
+			}
+			continue
+		}
+		if !ok {
+			if release {
+				x.c.oblige(oname, "lock", x.target, "lockinv "+li.Clause.Text+"   [does not evaluate against the current code]", fr.pos(pos), st.Reach, "false", nil)
+			}
+			continue
+		}
+		if release {
+			x.c.oblige(oname, "lock", x.target, "lockinv "+li.Clause.Text, fr.pos(pos), st.Reach, g, x.topReqs)
+		} else {
+			x.c.assume(implies(st.Reach, g))
+		}
 	}
 }
 
@@ -323,8 +379,9 @@ func (fr *Frame) call(st *State, v ssa.Value, cc *ssa.CallCommon, site ssa.Instr
 		ct := x.w.Contracts[key]
 		if ct != nil && ct.HasSpec && !ct.Inline {
 			x.curCallArgs, x.curCallFrame = cc.Args, fr
+			x.curFree = fr.freeBindings(callee, cc)
 			res := fr.applyContract(st, ct, callee, nil, args, pos)
-			x.curCallArgs, x.curCallFrame = nil, nil
+			x.curCallArgs, x.curCallFrame, x.curFree = nil, nil, nil
 			fr.setResults(v, sig, res)
 			return
 		}
@@ -527,6 +584,18 @@ func (fr *Frame) applyContract(st *State, ct *FnContract, callee *ssa.Function, 
 			}
 		} else {
 			bindSigNames(names, sig, args)
+		}
+		// the receiver of a method may always be called self (contracts of library methods do not depend on its name)
+		if sig.Recv() != nil && len(args) > 0 {
+			if _, dup := names["self"]; !dup {
+				names["self"] = Val{T: args[0], Ty: sig.Recv().Type()}
+			}
+		}
+		// free variables of a closure callee are named in its contract like locals
+		for k, v := range x.curFree {
+			if _, dup := names[k]; !dup {
+				names[k] = v
+			}
 		}
 	} else {
 		sig = cc.Signature()
@@ -756,6 +825,58 @@ func (fr *Frame) goStmt(st *State, in *ssa.Go) {
 	}
 	fr.callsiteSpecs(st, key, callee, args, cc, true, in.Pos())
 	x.bump(st, "go:"+key)
+	// a spawned function with a contract: its preconditions are obligations of the spawner (checked in the state at the
+	// go statement; the contract of a goroutine body may therefore only require facts that are stable, i.e. about its
+	// arguments and captured variables, not about state other goroutines change)
+	if callee != nil {
+		if ct := x.w.Contracts[key]; ct != nil && ct.HasSpec && len(ct.Requires) > 0 {
+			names := map[string]Val{}
+			for i, p := range callee.Params {
+				if i < len(args) {
+					names[p.Name()] = Val{T: args[i], Ty: p.Type()}
+				}
+			}
+			for k, v := range fr.freeBindings(callee, cc) {
+				names[k] = v
+			}
+			var pkg *types.Package
+			if callee.Pkg != nil {
+				pkg = callee.Pkg.Pkg
+			}
+			// the new goroutine holds no lock: lock predicates of its contract are read in a state where none is held
+			gst := st.clone()
+			gst.Comp["lock"] = "((as const (Array Loc Int)) 0)"
+			sc := &Scope{x: x, vars: names, st: gst, old: gst, pkg: pkg}
+			for i, cl := range ct.Requires {
+				nm := cl.Name
+				if nm == "" {
+					nm = fmt.Sprint(i + 1)
+				}
+				oname := fmt.Sprintf("%s#pre@go:%s:%s", x.target, ct.Key, nm)
+				gv, ok := sc.tryEval(cl.E)
+				if !ok {
+					x.c.oblige(oname, "pre", x.target, "requires "+cl.Text+"   [does not evaluate at the go statement]", fr.pos(in.Pos()), st.Reach, "false", nil)
+					continue
+				}
+				x.c.oblige(oname, "pre", x.target, "requires "+cl.Text, fr.pos(in.Pos()), st.Reach, gv.T, x.topReqs)
+			}
+		}
+	}
+}
+
+// the values bound to the free variables of a closure at a call or go site, by variable name
+func (fr *Frame) freeBindings(callee *ssa.Function, cc *ssa.CallCommon) map[string]Val {
+	mc, ok := cc.Value.(*ssa.MakeClosure)
+	if !ok || callee == nil {
+		return nil
+	}
+	out := map[string]Val{}
+	for i, b := range mc.Bindings {
+		if i < len(callee.FreeVars) {
+			out[callee.FreeVars[i].Name()] = Val{T: fr.val(b), Ty: b.Type(), ptrToVar: true}
+		}
+	}
+	return out
 }
 
 func (fr *Frame) deferStmt(st *State, in *ssa.Defer) {
